@@ -6,7 +6,7 @@
 \*    x own/ambient x accepting/rejecting filter x entries rt, direct, emit!; depth <= 1 for the other entries.
 SPECIFICATION Spec
 CONSTANTS
-    NScen <- MC_NScen
+    Scens <- MC_Scens
     Scen <- MC_Scen
     Which = "quick"
     ClockT <- MC_ClockT
